@@ -362,6 +362,9 @@ func init() {
 		ruleCleanTable(c, "C11-R2")
 		ruleIterUpdateTable(c, "C11-R2")
 		rulePlainIterator(c, "C11-R3", "C11-R3")
+		if t != nil {
+			ruleDeletedNoValue(c, "C11-R3", t)
+		}
 		ruleIntegerKeyFlag(c, "C11-R4")
 		ruleIterBoth(c, "C11-R4", "C11-R5", "C11-R4")
 		ruleCmpInt(c, "C11-R4")
@@ -395,6 +398,7 @@ func init() {
 				continue
 			}
 			ruleAssembly(c, "C14-R3", t)
+			ruleStoredValidated(c, "C14-R6", t)
 			if strings.HasSuffix(fn, "Merge") {
 				u := buildUniverse(t, c.Tier == "thorough")
 				if ruleTableTotal(c, "C14-R4", t, u, remoteCfgs) {
